@@ -506,6 +506,7 @@ static void gen(hx_plan_t *p, hx_rng_t *r)
     hx_set_knob(p, "short_limit", shortl);
     hx_set_knob(p, "aggregate", hx_chance(r, 30) ? 0 : -1);
     hx_set_knob(p, "thread_multiple", hx_chance(r, 45) ? 0 : hx_chance(r, 30) ? 1 : -1);    /* 0: reshapes are shifted to the communication thread */
+    hx_set_knob(p, "mpi_multiple", hx_chance(r, 60));     /* MPI provides MPI_THREAD_MULTIPLE: with thread_multiple != 0 workers call MPI themselves */
     /* which consumers exist, for which tiles, where; who writes */
     int nc = pg->nclasses, R = nc - 1;
     int density = (int)hx_range(r, 25, 85);
@@ -630,6 +631,7 @@ static void run(const hx_plan_t *p, hx_result_t *res)
     cfg.testsome_lag_pct = (int)hx_knob(p, "net_lag", 0);
     cfg.testsome_lag_max = 3;
     cfg.late_send_pct = (int)hx_knob(p, "net_late", 0);
+    cfg.thread_level = hx_knob(p, "mpi_multiple", 0) ? 3 /* MPI_THREAD_MULTIPLE */ : 0;      /* the library grants MPI_THREAD_MULTIPLE although the driver asks for SERIALIZED: PaRSEC then goes multi-threaded on MPI */
     simmpi_reset(NR, hx_current_seed(), &cfg);
     pthread_t pt[16];
     typed_rank_arg_t ra[16];
